@@ -187,6 +187,13 @@ func (r *mulRewriter) buildCanon(forms []*sx, declared map[string]bool) {
 			continue
 		}
 		eq := f.list[1]
+		if len(eq.list) == 3 && eq.list[0].atom == "=" && !eq.list[1].isAtom() && len(eq.list[1].list) > 0 && strings.HasPrefix(eq.list[1].list[0].atom, "pf_") {
+			// unconditional value of a pure-function application, e.g. (= (pf_time_Add t u) (+ t u))
+			if _, dup := r.termDefs[eq.list[1].String()]; !dup {
+				r.termDefs[eq.list[1].String()] = eq.list[2]
+			}
+			continue
+		}
 		if len(eq.list) != 3 || eq.list[0].atom != "=" || !eq.list[1].isAtom() || !declared[eq.list[1].atom] {
 			continue
 		}
@@ -235,11 +242,12 @@ func (r *mulRewriter) subst(s *sx) *sx {
 }
 
 type mulRewriter struct {
-	canon  map[string]string // atom -> representative atom (unconditional equalities)
-	defs   map[string]*sx    // atom -> unconditional defining term
-	mults  map[string]bool
-	bound  map[string]int // bound variable names in scope
-	ground map[string]map[string]bool // multiplier -> set of ground argument strings of mulby
+	canon    map[string]string // atom -> representative atom (unconditional equalities)
+	defs     map[string]*sx    // atom -> unconditional defining term
+	termDefs map[string]*sx    // pure-function application (as text) -> unconditional value
+	mults    map[string]bool
+	bound    map[string]int             // bound variable names in scope
+	ground   map[string]map[string]bool // multiplier -> set of ground argument strings of mulby
 }
 
 func mulName(y string) string { return "mulby_" + y }
@@ -417,9 +425,14 @@ func (r *mulRewriter) rewrite(s *sx) *sx {
 }
 
 // mulUFVariant rewrites a complete VC text. Returns "" when there is nothing to abstract.
-func mulUFVariant(vc string) string {
+func mulUFVariant(vc string) string { return mulVariant(vc, false) }
+
+// mulNormVariant: mul-as-UF plus normalisation of arithmetic atoms (linnorm.go).
+func mulNormVariant(vc string) string { return mulVariant(vc, true) }
+
+func mulVariant(vc string, normalize bool) string {
 	forms := parseSexprs(vc)
-	r := &mulRewriter{canon: map[string]string{}, defs: map[string]*sx{}, mults: map[string]bool{}, bound: map[string]int{}, ground: map[string]map[string]bool{}}
+	r := &mulRewriter{termDefs: map[string]*sx{}, canon: map[string]string{}, defs: map[string]*sx{}, mults: map[string]bool{}, bound: map[string]int{}, ground: map[string]map[string]bool{}}
 	declared := map[string]bool{}
 	for _, f := range forms {
 		if len(f.list) == 3 && f.list[0].atom == "declare-const" {
@@ -428,11 +441,16 @@ func mulUFVariant(vc string) string {
 	}
 	r.buildCanon(forms, declared)
 	var head, body []string
+	nz := &linNormalizer{r: r, lemmas: map[string]bool{}}
 	for _, f := range forms {
 		if len(f.list) > 0 {
 			switch f.list[0].atom {
 			case "assert":
-				body = append(body, r.rewrite(r.subst(f)).String())
+				g := r.rewrite(r.subst(f))
+				if normalize {
+					g = nz.normalize(g)
+				}
+				body = append(body, g.String())
 				continue
 			case "check-sat", "get-model":
 				continue
@@ -460,6 +478,9 @@ func mulUFVariant(vc string) string {
 		fmt.Fprintf(&b, "(assert (= (%s 0) 0))\n(assert (= (%s 1) %s))\n", m, m, y)
 		fmt.Fprintf(&b, "(assert (forall ((a Int) (c Int)) (! (=> (and (> %s 0) (< a c)) (<= (+ (%s a) %s) (%s c))) :pattern ((%s a) (%s c)))))\n", y, m, y, m, m, m)
 		fmt.Fprintf(&b, "(assert (forall ((a Int)) (! (=> (> %s 0) (and (<= (%s (%s a)) a) (< a (+ (%s (%s a)) %s)))) :pattern ((%s a)))))\n", y, m, d, m, d, y, d)
+		if normalize {
+			continue
+		}
 		// pairwise additivity of the ground products that occur (depth 1)
 		terms := []string{}
 		for t := range r.ground[y] {
@@ -477,6 +498,16 @@ func mulUFVariant(vc string) string {
 			}
 			fmt.Fprintf(&b, "(assert (= (%s (+ %s 1)) (+ (%s %s) %s)))\n", m, terms[i], m, terms[i], y)
 			fmt.Fprintf(&b, "(assert (= (%s (- %s 1)) (- (%s %s) %s)))\n", m, terms[i], m, terms[i], y)
+		}
+	}
+	if normalize {
+		ls := []string{}
+		for l := range nz.lemmas {
+			ls = append(ls, l)
+		}
+		sort.Strings(ls)
+		for _, l := range ls {
+			b.WriteString("(assert " + l + ")\n")
 		}
 	}
 	for _, a := range body {
